@@ -22,10 +22,10 @@ ENTRIES = [
  ("C12_tempo_follows_first_then_second", "join_spec", "the result's tempo follows the first operand's tempo up to its duration and the second's, shifted, afterwards (the joint itself is a jump)"),
  ("C12_tempo_at_joint", "join_at_joint", ""),
  ("C12_tempo_equal_constants", "join_trivial", "two equal constant tempi: nothing changes"),
- ("C12_tempo_last_point_needed", "join_last_positive_refuted", "model boundary: a first tempo whose last event has positive duration and ends exactly at the event's end is interpolated towards the second tempo (envelopes built from points always end with a zero-length point)"),
+ ("C12_tempo_tail_at_seam", "join_tail_at_seam", "a first tempo whose last point has a length of its own and ends exactly at the seam (the case of defect D12): the hypotheses of the theorem above are met and its tail keeps its value up to the seam"),
 ]
 EXTRA = """Print seqs. Print join_all. Print operand_ok. Print dur_sum.
-Print nontrivial. Print last_zero. Print zipjoin. Print padv. Print newv.
+Print nontrivial. Print tail_positive. Print zipjoin. Print padv. Print newv.
 (* "the second operand (and for '+', the first) still has its original content and tempo values": the model's
    operations are functions of their operands; on the implementation this is decided by the oracle of every
    run (snapshots of both operands before/after). Known findings: F7 (the tempo of a simultaneity itself is not
